@@ -5,6 +5,7 @@ pub mod out;
 pub mod proj;
 pub mod rng;
 pub mod w;
+pub mod r;
 
 use std::panic::{self, AssertUnwindSafe};
 
